@@ -101,7 +101,9 @@ def run_program(prog, seed, policy, base, family="corpus", replay=None):
     acc_lines = [l for l in model if l.startswith(". ACC-VIOLATION")]
     prot_lines = [l for l in model if l.startswith(". PROT-VIOLATION")]
     scope_lines = [l for l in model if l.startswith(". SCOPE-OUT")]
-    model = [l for l in model if not l.startswith(". ACC-VIOLATION") and not l.startswith(". PROT-VIOLATION") and not l.startswith(". SCOPE-OUT")]
+    view_lines = [l for l in model if l.startswith(". VIEW-OUT")]
+    model = [l for l in model if not l.startswith(". ACC-VIOLATION") and not l.startswith(". PROT-VIOLATION") and not l.startswith(". SCOPE-OUT")
+             and not l.startswith(". VIEW-OUT")]
     open(base + ".model", "w").write(m.stdout.decode())
     if m.returncode != 0:
         res["status"] = "model-failed"
@@ -132,6 +134,10 @@ def run_program(prog, seed, policy, base, family="corpus", replay=None):
         findings = list(findings) + [("C02", "accounting equation count+slots+owed = containers+envelopes+handles+frames violated: " + l[2:], None)]
     for l in prot_lines:
         findings = list(findings) + [("C01", "protection invariant of coq/ASModel/ProtDefs.v (a slot holding a value is unconfirmed, or the value is stored, or a writer still walks towards the slot) violated: " + l[2:], None)]
+    for l in view_lines:
+        # not a property violation: the run is outside the hypotheses of the stale-cache theorems (the harness offered a value
+        # the model's views forbid) - a defect of the harness' view tracking
+        findings = list(findings) + [("HARNESS", "stale value outside the model's views: " + l[2:], None)]
     res["findings"] = findings
     res["metrics"] = metrics
     # inside the scope of the end-to-end theorems (Main.RunOK)? static part: no set_generation, no cache commands
